@@ -33,13 +33,13 @@ func VP_C02_Commit() {
 	w, g := zzvp.Root(), vpG()
 	files := vpWorkFiles(1+zzvp.Choose(zzvp.Param("files", 2)), zzvp.Param("depth", 2), zzvp.Param("complen", 2), zzvp.Param("content", 1))
 	for _, f := range files {
-		zzvp.Assume(zzvp.Run("add", f.path).Exit == 0)
+		vpOK(zzvp.Run("add", f.path))
 	}
 	hasParent := zzvp.Choose(2) == 1
 	var tipBefore, devBefore []byte
 	if hasParent {
-		zzvp.Assume(zzvp.Run("commit", "-m", "base").Exit == 0)
-		zzvp.Assume(zzvp.Run("branch", "dev").Exit == 0)
+		vpOK(zzvp.Run("commit", "-m", "base"))
+		vpOK(zzvp.Run("branch", "dev"))
 		tipBefore, _, _ = vpBranch("main")
 		devBefore, _, _ = vpBranch("dev")
 		// edit the first file and stage it
@@ -47,7 +47,7 @@ func VP_C02_Commit() {
 		zzvp.Assume(string(nc) != string(files[0].content))
 		zzvp.WriteFile(w+"/"+files[0].path, nc)
 		files[0].content = nc
-		zzvp.Assume(zzvp.Run("add", files[0].path).Exit == 0)
+		vpOK(zzvp.Run("add", files[0].path))
 	}
 	staged, ok := vpReadIndex()
 	zzvp.Assume(ok)
